@@ -13,8 +13,10 @@ import (
 	"fmt"
 	"os"
 	"regexp"
+	"runtime"
 	"sort"
 	"strings"
+	"sync"
 
 	a "github.com/google/wuffs/lang/ast"
 	"github.com/google/wuffs/lang/check"
@@ -167,7 +169,25 @@ func probeFacts(path string) {
 		os.Exit(2)
 	}
 	out := make([]factsResult, len(progs))
+	var wg sync.WaitGroup
+	sem := make(chan struct{}, runtime.NumCPU())
 	for i, src := range progs {
+		wg.Add(1)
+		sem <- struct{}{}
+		go func(i int, src string) {
+			defer wg.Done()
+			defer func() { <-sem }()
+			probeOne(&out[i], src)
+		}(i, src)
+	}
+	wg.Wait()
+	enc := json.NewEncoder(os.Stdout)
+	enc.Encode(out)
+}
+
+func probeOne(res *factsResult, src string) {
+	out := []*factsResult{res}
+	for i := 0; i < 1; i++ {
 		tm := &t.Map{}
 		tokens, _, err := t.Tokenize(tm, "probe.wuffs", []byte(src))
 		if err != nil {
@@ -192,8 +212,6 @@ func probeFacts(path string) {
 			}
 		}
 	}
-	enc := json.NewEncoder(os.Stdout)
-	enc.Encode(out)
 }
 
 func main() {
